@@ -50,11 +50,17 @@ func hostConv(v interface{}, typ string) (interface{}, bool) {
 	case "any":
 		return v, true
 	case "int64":
+		if v == nil {
+			return int64(0), true // nil converts to the zero value of the wanted type
+		}
 		if i, ok := v.(int64); ok {
 			return i, true
 		}
 		return nil, false
 	case "string":
+		if v == nil {
+			return "", true
+		}
 		if s, ok := v.(string); ok {
 			return s, true
 		}
